@@ -196,7 +196,7 @@ def run_driver(chk, scens, cfgs, reorder=False, nproc=16, tag='c01'):
 
     def one(j):
         args = [sf, j[1], j[0]] + (['--reorder'] if reorder else [])
-        chk.run_py('checks/c01_driver.py', args, timeout=7000,
+        chk.run_py('checks/c01_driver.py', args, timeout=20000,
                    env_extra={'OMP_NUM_THREADS': '1'})
         return j[1]
     with ThreadPoolExecutor(max_workers=nproc) as ex:
